@@ -159,6 +159,49 @@ async fn cell(set: Arc<CertSet>, n: usize, order: String, pattern: String, celli
     if let Err(e) = same_connection_round_trip(&stall_conn, &format!("/c17ns/same{cellid}")).await {
         return Err(fail("other-topic-blocked-on-same-connection", class, format!("topic {a} is stalled (publisher blocked after {sent} bytes, {n} registrations queued, {order}); the same client on another topic over the same connection: {e}")));
     }
+    if n > 100 && order == "stall-first" && pattern == "pubsub" {
+        // a client of the library asks to publish on the stalled topic (that registration parks
+        // behind the full queue) and then uses another topic: its own open() calls must not queue
+        // up behind the first one
+        let lib = net::default_client(addr, &set).await.map_err(|e| setup("library client", e.to_string()))?;
+        let lib2 = lib.clone();
+        let a2 = a.clone();
+        let joining = tokio::spawn(async move { lib2.publisher(&a2).with_encoder(StringCodec).open().await.map(|_| ()) });
+        tokio::time::sleep(Duration::from_millis(300)).await;
+        let other = format!("/c17ns/lib{cellid}");
+        let fut = async {
+            let mut sub = lib.subscriber(&other).with_decoder(StringCodec).open().await.map_err(|e| format!("subscriber open: {e}"))?;
+            let mut publ = lib.publisher(&other).with_encoder(StringCodec).open().await.map_err(|e| format!("publisher open: {e}"))?;
+            loop {
+                publ.send("ping".to_string()).await.map_err(|e| format!("send: {e}"))?;
+                if let Ok(Some(Ok(_))) = tokio::time::timeout(Duration::from_millis(200), sub.next()).await {
+                    return Ok::<(), String>(());
+                }
+            }
+        };
+        let r = tokio::time::timeout(Duration::from_secs(20), fut).await;
+        joining.abort();
+        match r {
+            Ok(Ok(())) => {}
+            Ok(Err(e)) => return Err(fail("other-topic-blocked-for-the-same-client", class, format!("a client asked to publish on the stalled topic {a} ({n} registrations queued) and then, from another task, used {other}: {e}"))),
+            Err(_) => return Err(fail("other-topic-blocked-for-the-same-client", class, format!("a client asked to publish on the stalled topic {a} ({n} registrations queued) and then, from another task, opened streams on {other}: nothing within 20 s (its open() calls wait for the first one)"))),
+        }
+        // every other topic, whatever its name, can be joined
+        let probe = RawConn::connect(addr, &set.ca, Some(&set.client)).await.map_err(|e| setup("probe connect", e.to_string()))?;
+        let mut blocked = Vec::new();
+        let mut keep = Vec::new();
+        for i in 0..40 {
+            let name = format!("/c17ns/probe{cellid}-{i:02}");
+            let t = TopicName::try_from(name.as_str()).unwrap();
+            match tokio::time::timeout(Duration::from_secs(5), probe.register(Frame::RegisterSubscriber(SubscriberPayload { topic: t, retention_policy: 0, operations: vec![] }))).await {
+                Ok(Ok((s, Some(Frame::Ok)))) => keep.push(s),
+                _ => blocked.push(name),
+            }
+        }
+        if !blocked.is_empty() {
+            return Err(fail("other-topic-blocked", &format!("{class}:some-names"), format!("topic {a} is stalled with {n} registrations queued; of 40 unrelated topic names {} could not be joined within 5 s: {:?}", blocked.len(), blocked)));
+        }
+    }
     // a topic that merely shares its last component with the stalled one is another topic too
     if let Err(e) = round_trip(addr, &set, &format!("/c17alt/stall{cellid}"), Duration::from_secs(20)).await {
         return Err(fail("other-topic-blocked", &format!("{class}:same-leaf-name"), format!("topic {a} is stalled ({n} registrations queued, {order}); a fresh client on /c17alt/stall{cellid} (same topic component, other namespace): {e}")));
@@ -445,7 +488,7 @@ pub async fn run(tier: &str, replaying: bool) -> ! {
     finish(
         rep,
         outs,
-        "every cell of: number N of further registrations on the stalled topic in {0,(1,50,)99,100,101,102,(103,)150,200(,163..165,250,400)} x order {stall first then N registrations, N registrations first then stall} x stalled pattern {pub/sub: never-reading subscriber + flooding publisher; request/reply: never-reading bound replier + flooding requestor}; per cell a fresh real server, topic A stalled by a raw subscriber that never reads plus a raw publisher flooding 64 KiB frames until a send takes longer than 1 s, N raw subscriber registrations on A (each awaits its Ok; a new QUIC connection every 50 streams), then the flooding client itself must round-trip a message on another topic over the same connection, and a fresh real client opens subscriber + publisher on topic B and must round-trip a message, each within 20 s. Plus one many-connections cell: 140 (thorough 400) peers, each over a connection of its own, ask to join the stalled topic; every one of them must be able to connect and a fresh client must still round-trip on topic B. Plus one parked-on-victim cell: with A stalled and its queue full, a client exchanging messages on topic B also sends 3 registrations for A over the same connection (they park); its exchanges on B must keep working for 8 s (thorough 35 s, i.e. beyond any internal time-out). Plus zero-window cells: 1 or 3 peers register on topic A in each of the four roles over connections that grant the server no flow-control credit on their streams (the answer to their registration - Ok, or the refusal when topic A already exists with the other messaging pattern - can never be written); a fresh client must still round-trip a message on topic B. non-trivial = N > 0",
+        "every cell of: number N of further registrations on the stalled topic in {0,(1,50,)99,100,101,102,(103,)150,200(,163..165,250,400)} x order {stall first then N registrations, N registrations first then stall} x stalled pattern {pub/sub: never-reading subscriber + flooding publisher; request/reply: never-reading bound replier + flooding requestor}; per cell a fresh real server, topic A stalled by a raw subscriber that never reads plus a raw publisher flooding 64 KiB frames until a send takes longer than 1 s, N raw subscriber registrations on A (each awaits its Ok; a new QUIC connection every 50 streams), then the flooding client itself must round-trip a message on another topic over the same connection, and a fresh real client opens subscriber + publisher on topic B and must round-trip a message, each within 20 s. In the cells with an over-full queue a client of the library also asks to publish on the stalled topic and must then be able to use another topic from another task, and 40 unrelated topic names must all be joinable. Plus one many-connections cell: 140 (thorough 400) peers, each over a connection of its own, ask to join the stalled topic; every one of them must be able to connect and a fresh client must still round-trip on topic B. Plus one parked-on-victim cell: with A stalled and its queue full, a client exchanging messages on topic B also sends 3 registrations for A over the same connection (they park); its exchanges on B must keep working for 8 s (thorough 35 s, i.e. beyond any internal time-out). Plus zero-window cells: 1 or 3 peers register on topic A in each of the four roles over connections that grant the server no flow-control credit on their streams (the answer to their registration - Ok, or the refusal when topic A already exists with the other messaging pattern - can never be written); a fresh client must still round-trip a message on topic B. non-trivial = N > 0",
         "fault = misbehaving participants of one topic; enumerated exhaustively over the listed N and orders",
         json!({}),
         replaying,
